@@ -726,7 +726,12 @@ def arrangement(r, nchunks, maxmsgs, ts_domain, nch=3, overlap=None, empty_chann
             items.append(("chunk", inner, {}))
         if r.random() < 0.15:
             items.append(("metadata", {"name": b"md%d" % k, "metadata": [(b"k", b"v")]}))
-    return {"header": {"profile": b"", "library": b"ref"}, "items": items, "message_index": r.random() < 0.8}
+    groups = ["schema", "channel", "statistics", "chunk_index", "attachment_index", "metadata_index"]
+    if r.random() < 0.5:
+        r.shuffle(groups)
+    if r.random() < 0.2:
+        groups.remove("statistics")
+    return {"header": {"profile": b"", "library": b"ref"}, "items": items, "message_index": r.random() < 0.8, "groups": groups}
 
 
 def parse_msg_line(l):
@@ -1109,3 +1114,385 @@ def check_c10(rep, tier, seed, wd, replay):
                     "structured mutations of valid files (every length/offset/size/count field set to 0, 1, +-1, 2^31, 2^32-1, 2^63, 2^64-1, file size; truncation, record splicing, unknown compression, nested chunk, byte noise, random bytes) through NewLexer/Next under 4 option sets, NewReader/Info/Messages in all modes/orders, GetMetadata/GetAttachmentReader at hostile offsets, and every Parse* on every record body; each Go run isolated in a child (8 GiB address space cap, 60 s deadline, allocation accounting via runtime.MemStats); outcome and observables compared with the model; distinct = distinct mutated files",
                     [cl.lex_replay(c)[:4] for c in lexcases[-2:]], dict(st, mutated_files=nmut, outcome_classes=outcome_classes))
     return cov, ["real RSS, wall-clock and stack depth are measured, not proved (partial)", "decoder internals (zstd/lz4) are outside the model"]
+
+
+# ------------------------------------------------------------------ C01, C11, C12 (content-level)
+def tok_parsed(ev):
+    """parse a 'tok <op> <hex>' / 'att ...' event line into a comparable record"""
+    f = ev.split(" ")
+    if f[0] == "tok":
+        op = int(f[1])
+        body = cm.unhx(f[2])
+        try:
+            return (op, mcapspec.parse_body(op, body))
+        except mcapspec.SpecError as e:
+            return (op, "unparsable: %s" % e)
+    if f[0] == "att":
+        return ("att", {"log_time": int(f[1]), "create_time": int(f[2]), "name": cm.unhx(f[3]), "media_type": cm.unhx(f[4]),
+                        "size": int(f[5]), "data": cm.unhx(f[6]), "data_end": f[7], "computed": f[8], "parsed": f[9]})
+    return (f[0], None)
+
+
+def lex_content(events):
+    """logical content seen by a lexer run: header, data-section schemas/channels/messages/attachments/metadata"""
+    c = {"header": None, "schemas": [], "channels": [], "messages": [], "attachments": [], "metadata": [], "dataend": False}
+    for ev in events:
+        op, p = tok_parsed(ev)
+        if op == 15:
+            c["dataend"] = True
+        if c["dataend"]:
+            continue
+        if op == 1:
+            c["header"] = (p["profile"], p["library"])
+        elif op == 3:
+            c["schemas"].append((p["id"], p["name"], p["encoding"], p["data"]))
+        elif op == 4:
+            c["channels"].append((p["id"], p["schema_id"], p["topic"], p["message_encoding"], tuple(sorted(p["metadata"]))))
+        elif op == 5:
+            c["messages"].append((p["channel_id"], p["sequence"], p["log_time"], p["publish_time"], p["data"]))
+        elif op == "att":
+            c["attachments"].append((p["log_time"], p["create_time"], p["name"], p["media_type"], p["data"], p["computed"] == p["parsed"]))
+        elif op == 12:
+            c["metadata"].append((p["name"], tuple(sorted(p["metadata"]))))
+    return c
+
+
+def expected_lex_content(f, lib):
+    o, calls = f["o"], f["calls"]
+    exp = gw.expected_content(o, calls, f["g"]["calls"])
+    h = exp["header"]
+    if o["overridelib"]:
+        libs = h[1]
+    elif h[1] != b"" and h[1] != lib:
+        libs = lib + b"; " + h[1]
+    else:
+        libs = lib
+    return {
+        "header": (h[0], libs),
+        "schemas": [(c[1], c[2], c[3], c[4]) for c in calls if c[0] == "S"],
+        "channels": [(c[1], c[2], c[3], c[4], tuple(sorted(c[5]))) for c in calls if c[0] == "C"],
+        "messages": [(c[1], c[2], c[3], c[4], c[5]) for c in calls if c[0] == "M"],
+        "attachments": [(c[1], c[2], c[3], c[4], b"".join(c[7]), True) for c in calls if c[0] == "A"],
+        "metadata": [(c[1], tuple(sorted(c[2]))) for c in calls if c[0] == "D"],
+        "dataend": True,
+    }
+
+
+@prop("C01")
+def check_c01(rep, tier, seed, wd, replay):
+    nfiles = 200 if tier == "quick" else 5000
+    files, crashed = cl.written_files(seed * 1000 + 1, nfiles, "c01f", wd, nmax=25, small=False)
+    lib = cm.lib_id()
+    lcases, rcases = [], []
+    for i, f in enumerate(files):
+        lo = {"validate": i % 2, "cb": "full", "acrc": 1, "skipmagic": 1 if f["o"]["skipmagic"] else 0, "reuse": (i // 2) % 2}
+        lcases.append({"id": f["id"] + "_lex", "file": f["file"], "lopts": lo, "src": {"seek": (i // 4) % 2}, "base": f})
+        if not f["o"]["skipmagic"]:
+            rcases.append({"id": f["id"] + "_scan", "file": f["file"], "ropts": ["index:0"], "ops": [["messages"], ["messages", "into"]], "base": f})
+    go_l, model_l, nd1 = lex_corr(rep, lcases, wd, "c01l")
+    go_r, model_r, nd2 = read_corr(rep, rcases, wd, "c01r")
+    st = {"records_compared": 0, "messages_compared": 0, "xor_files": 0}
+    for c in lcases:
+        g = go_l.get(c["id"])
+        probs = []
+        f = c["base"]
+        if g:
+            if g["panic"]:
+                probs.append("lexer crashed: %s" % g["panic"])
+            elif g["new"] == "ok":
+                got = lex_content(g["events"])
+                want = expected_lex_content(f, lib)
+                for k in ("header", "schemas", "channels", "messages", "attachments", "metadata"):
+                    st["records_compared"] += len(want[k]) if isinstance(want[k], list) else 1
+                    if got[k] != want[k]:
+                        probs.append("%s read back by the lexer differ from what was written (%d vs %d)" % (k, len(got[k]) if got[k] else 0, len(want[k]) if want[k] else 0))
+                if g["end"] != "err:eof":
+                    probs.append("lexer did not reach a clean end of file: %s" % g["end"])
+        report_case(rep, c, probs[:3], cl.lex_replay)
+    for c in rcases:
+        g = go_r.get(c["id"])
+        probs = []
+        f = c["base"]
+        if g and g["ops"]:
+            if f["o"]["comp"] == "xor":
+                st["xor_files"] += 1          # Reader has no custom-decompressor hook: chunked xor files cannot be scanned
+            for oi, o in enumerate(g["ops"]):
+                if o["panic"]:
+                    probs.append("reader crashed: %s" % o["panic"])
+                elif (o["head"] or "").startswith("messages ok") and not (f["o"]["comp"] == "xor" and f["o"]["chunked"]):
+                    schemas = {c2[1]: c2 for c2 in f["calls"] if c2[0] == "S"}
+                    channels = {}
+                    want = []
+                    for c2 in f["calls"]:
+                        if c2[0] == "C":
+                            channels.setdefault(c2[1], c2)
+                        if c2[0] == "M":
+                            ch = channels[c2[1]]
+                            sc = schemas.get(ch[2])
+                            stext = "noschema" if ch[2] == 0 else "schema %d %s %s %s" % (sc[1], cm.hx(sc[2]), cm.hx(sc[3]), cm.hx(sc[4]))
+                            kv = ",".join("%s:%s" % (k.hex(), v.hex()) for k, v in sorted(ch[5])) or "-"
+                            want.append("msg %s channel %d %d %s %s %s message %d %d %d %d %s" % (stext, ch[1], ch[2], cm.hx(ch[3]), cm.hx(ch[4]), kv,
+                                                                                                 c2[1], c2[2], c2[3], c2[4], cm.hx(c2[5])))
+                    st["messages_compared"] += len(want)
+                    if o["msgs"] != want:
+                        n = next((j for j in range(min(len(want), len(o["msgs"]))) if want[j] != o["msgs"][j]), min(len(want), len(o["msgs"])))
+                        probs.append("sequential message read (%s) differs from the messages written at index %d (%d returned, %d written)" % ("NextInto" if oi else "Next", n, len(o["msgs"]), len(want)))
+                    if o["end"] != "err:eof":
+                        probs.append("scan ended with %s" % o["end"])
+                    if o["alias"] not in (None, "0"):
+                        probs.append("%s values already returned were altered by later reads" % o["alias"])
+        report_case(rep, c, probs[:3], cr.read_replay)
+    distinct = len(set((tuple(sorted(f["o"].items())), len(f["g"]["chunks"]) > 1, len(f["calls"]) > 10) for f in files))
+    cov = summarize(rep, len(lcases) + len(rcases), distinct,
+                    "workloads written by the real writer under random configurations (chunked or not, chunk size 1..1 MiB, none/zstd/lz4/xor at all levels, CRC on/off, all Skip*/Override flags, SkipMagic on both sides), read back through the lexer (attachment callback, validation on/off, caller buffer reused or nil, seekable or not) and through Messages(UsingIndex(false)) with Next and NextInto; compared with the lexer/reader models event by event; oracle: decoded header/schemas/channels/messages/attachments/metadata equal the call list field by field and in order, values returned earlier unchanged at the end",
+                    [cl.lex_replay(c)[:4] for c in lcases[:2]], dict(st, files=len(files), disagreements=nd1 + nd2))
+    return cov, ["returned-value aliasing is observed by the harness (two snapshots), the immutable model cannot exhibit it"]
+
+
+def decorate(r, L):
+    """L plus unknown-opcode records (top level, inside chunks, in the summary) and trailing bytes on extensible records"""
+    def unk():
+        return ("unknown", r.choice([0x10, 0x42, 0x7f, 0x80, 0xaa, 0xff]), bytes(r.randrange(256) for _ in range(r.choice([0, 0, 1, 9, 40]))))
+    items = []
+    for it in L["items"]:
+        if r.random() < 0.3:
+            items.append(unk())
+        if it[0] == "chunk":
+            inner = []
+            for jt in it[1]:
+                if r.random() < 0.3:
+                    inner.append(unk())
+                inner.append(jt)
+            if r.random() < 0.3:
+                inner.append(unk())
+            items.append(("chunk", inner, it[2]))
+        else:
+            items.append(it)
+    if r.random() < 0.5:
+        items.append(unk())
+    D = dict(L, items=items)
+    D["pad"] = r.choice([b"", b"\x01\xff\xff", b"\x00", bytes(r.randrange(256) for _ in range(7))])
+    D["summary_unknown"] = [(r.choice([0x10, 0x90, 0xfe]), bytes(r.randrange(256) for _ in range(r.randint(0, 12)))) for _ in range(r.randint(0, 3))]
+    return D
+
+
+def strip_offsets(line):
+    """Info lines with file offsets removed (they legitimately differ between layouts)"""
+    f = line.split(" ")
+    if f[0] == "footer":
+        return "footer"
+    if f[0] == "ci":
+        return " ".join([f[0], f[1], f[2], f[7]])                 # start, end, compression
+    if f[0] == "ai":
+        return " ".join([f[0]] + f[3:])
+    if f[0] == "mx":
+        return " ".join([f[0], f[3]])
+    return line
+
+
+def parsed_events(events, drop_index_offsets=True):
+    res = []
+    for ev in events:
+        op, p = tok_parsed(ev)
+        if isinstance(p, dict):
+            p = {k: (tuple(sorted(v)) if isinstance(v, list) else v) for k, v in p.items()}
+            if drop_index_offsets and op in (2, 7, 8, 10, 13, 14, 15):
+                # records that carry file offsets / CRCs over bytes: compare kind only
+                res.append((op,))
+                continue
+            if op == 6:
+                res.append((op,)); continue
+            if op == 11:
+                p = dict(p)
+        res.append((op, tuple(sorted(p.items())) if isinstance(p, dict) else p))
+    return res
+
+
+def layout_reads(fid, data):
+    base = {"file": data}
+    return [dict(base, id=fid + "_lex", kind="lex", lopts={"cb": "full"}),
+            dict(base, id=fid + "_lexv", kind="lex", lopts={"cb": "full", "validate": 1}),
+            dict(base, id=fid + "_info", kind="read", ropts=[], ops=[["info"]]),
+            dict(base, id=fid + "_idx", kind="read", ropts=["mdcb"], ops=[["messages"]]),
+            dict(base, id=fid + "_scan", kind="read", ropts=["index:0", "mdcb"], ops=[["messages"]]),
+            dict(base, id=fid + "_log", kind="read", ropts=["order:log"], ops=[["messages"]]),
+            dict(base, id=fid + "_rev", kind="read", ropts=["order:rev", "topics:" + b"/a".hex()], ops=[["messages"]])]
+
+
+def read_signature(kind_suffix, g):
+    """what a read reports, with layout-dependent offsets removed"""
+    if g is None:
+        return None
+    if "events" in g:
+        if g["panic"]:
+            return ("panic", g["panic"])
+        return (g["new"], tuple(parsed_events(g["events"])), g["end"])
+    sig = []
+    for o in g["ops"]:
+        if o["panic"]:
+            sig.append(("panic", o["panic"])); continue
+        msgs = o["msgs"] if kind_suffix in ("_idx", "_scan") else sorted(o["msgs"])
+        info = [strip_offsets(l) for l in o["info"]]
+        sig.append((o["head"], tuple(msgs), tuple(o["mds"]), o["end"], tuple(info)))
+    return tuple(sig)
+
+
+@prop("C11")
+def check_c11(rep, tier, seed, wd, replay):
+    import random
+    r = random.Random(seed * 1000 + 11)
+    n = 80 if tier == "quick" else 2000
+    lcases, rcases, pairs = [], [], []
+    for i in range(n):
+        L = arrangement(r, r.randint(1, 5), r.randint(1, 4), r.choice([[0, 1, 2, 3], [5, 9, 2**40, 2**64 - 1], list(range(12))]))
+        L["items"].insert(r.randint(0, len(L["items"])), ("attachment", {"log_time": 3, "create_time": 4, "name": b"a", "media_type": b"m", "data": b"attachment-data"}))
+        L["items"].append(("metadata", {"name": b"tail", "metadata": [(b"x", b"y"), (b"a", b"")]}))
+        D = decorate(r, L)
+        plain, _ = mcapenc.build(L)
+        deco, _ = mcapenc.build(D)
+        pid, did = "c11p%d" % i, "c11d%d" % i
+        for c in layout_reads(pid, plain) + layout_reads(did, deco):
+            (lcases if c["kind"] == "lex" else rcases).append(c)
+        pairs.append((pid, did, L, D))
+    go_l, model_l, nd1 = lex_corr(rep, lcases, wd, "c11l")
+    go_r, model_r, nd2 = read_corr(rep, rcases, wd, "c11r")
+    byid = {c["id"]: c for c in lcases + rcases}
+    ncmp = 0
+    for pid, did, L, D in pairs:
+        for suf in ("_lex", "_lexv", "_info", "_idx", "_scan", "_log", "_rev"):
+            gp = (go_l if suf.startswith("_lex") else go_r).get(pid + suf)
+            gd = (go_l if suf.startswith("_lex") else go_r).get(did + suf)
+            c = byid[did + suf]
+            probs = []
+            if gp is not None and gd is not None:
+                ncmp += 1
+                if read_signature(suf, gp) != read_signature(suf, gd):
+                    probs.append("%s of the file with unknown records / appended bytes differs from the plain file's" % suf[1:])
+            report_case(rep, c, probs, cl.lex_replay if suf.startswith("_lex") else cr.read_replay)
+        for suf in ("_lex", "_lexv", "_info", "_idx", "_scan", "_log", "_rev"):
+            c = byid[pid + suf]
+            report_case(rep, c, [], cl.lex_replay if suf.startswith("_lex") else cr.read_replay)
+    cov = summarize(rep, len(lcases) + len(rcases), len(pairs),
+                    "contents rendered by the reference encoder twice: plain, and decorated with unknown-opcode records (0x10..0xff, length 0..40) at top level, inside chunks and in the summary, plus trailing bytes on every extensible record (incl. the conformance 'pad' bytes 01 ff ff); both read by the lexer (validation on/off), Info, indexed, scan, LogTime and Reverse+topic reads; compared with the model; oracle: parsed records, messages, metadata callbacks and Info (file offsets removed) of the decorated file equal the plain file's",
+                    [cl.lex_replay(c)[:4] for c in lcases[:2]], {"pairs": len(pairs), "read_comparisons": ncmp, "disagreements": nd1 + nd2})
+    return cov, []
+
+
+def relayout(r, L):
+    """another legal layout of the same logical content"""
+    msgs = []
+    others = []
+    heads = []
+    for it in L["items"]:
+        if it[0] in ("schema", "channel"):
+            heads.append(it)
+        elif it[0] == "chunk":
+            msgs += [j for j in it[1] if j[0] == "message"]
+        elif it[0] == "message":
+            msgs.append(it)
+        else:
+            others.append(it)
+    items = []
+    style = r.choice(["top", "inchunk", "repeat"])
+    if style == "top":
+        items += heads
+    i = 0
+    first = True
+    while i < len(msgs) or first:
+        n = r.choice([0, 1, 1, 2, 3, 5, len(msgs)])
+        part = msgs[i:i + n]
+        i += n
+        if r.random() < 0.25 and part:
+            items += ([h for h in heads] if first and style != "top" else []) + part      # unchunked messages
+        else:
+            inner = ([h for h in heads] if (first and style != "top") or style == "repeat" else []) + part
+            if inner or r.random() < 0.3:
+                items.append(("chunk", inner, {}))
+            elif first and style != "top":
+                items += heads
+        if others and r.random() < 0.5:
+            items.append(others.pop(0))
+        first = False
+        if i >= len(msgs):
+            break
+    items += others
+    groups = ["schema", "channel", "statistics", "chunk_index", "attachment_index", "metadata_index"]
+    r.shuffle(groups)
+    if r.random() < 0.3:
+        groups.remove("statistics")
+    if r.random() < 0.3:
+        groups.remove("attachment_index")
+    return dict(L, items=items, groups=groups, message_index=r.random() < 0.7, summary_offsets=r.random() < 0.7, crc=r.random() < 0.7)
+
+
+@prop("C12")
+def check_c12(rep, tier, seed, wd, replay):
+    import random
+    r = random.Random(seed * 1000 + 12)
+    n = 60 if tier == "quick" else 1500
+    lcases, rcases, groups = [], [], []
+    for i in range(n):
+        L = arrangement(r, r.randint(1, 5), r.randint(1, 4), r.choice([[0, 1, 2, 3], [5, 9, 2**40, 2**64 - 1], list(range(12))]), empty_channel=False)
+        L["items"] = [it for it in L["items"] if it[0] != "metadata"]
+        L["items"].append(("attachment", {"log_time": 3, "create_time": 4, "name": b"a", "media_type": b"m", "data": b"attachment-data"}))
+        L["items"].append(("metadata", {"name": b"tail", "metadata": [(b"x", b"y")]}))
+        ids = []
+        for v in range(3):
+            LL = L if v == 0 else relayout(r, L)
+            data, _ = mcapenc.build(LL)
+            fid = "c12_%d_%d" % (i, v)
+            ids.append((fid, LL))
+            for c in layout_reads(fid, data):
+                (lcases if c["kind"] == "lex" else rcases).append(c)
+        groups.append(ids)
+    go_l, model_l, nd1 = lex_corr(rep, lcases, wd, "c12l")
+    go_r, model_r, nd2 = read_corr(rep, rcases, wd, "c12r")
+    byid = {c["id"]: c for c in lcases + rcases}
+
+    def content_sig(suf, g):
+        if g is None:
+            return None
+        if "events" in g:
+            if g["panic"]:
+                return ("panic",)
+            c = lex_content(g["events"])
+            return (g["new"], c["header"], tuple(sorted(set(c["schemas"]))), tuple(sorted(set(c["channels"]))), tuple(c["messages"]),
+                    tuple(c["attachments"]), tuple(c["metadata"]), g["end"])
+        sig = []
+        for o in g["ops"]:
+            if o["panic"]:
+                sig.append(("panic",)); continue
+            if suf == "_info":
+                keep = [l for l in o["info"] if l.split(" ")[0] in ("ischema", "ichannel")]
+                sig.append((o["head"], tuple(keep)))
+            else:
+                msgs = o["msgs"] if suf in ("_idx", "_scan") else sorted(o["msgs"])
+                sig.append((o["head"].replace(" scan", "").replace(" indexed", "") if o["head"] else None, tuple(msgs), tuple(o["mds"]) if suf == "_scan" else (), o["end"]))
+        return tuple(sig)
+    ncmp = 0
+    for ids in groups:
+        ref_id, ref_L = ids[0]
+        for fid, LL in ids[1:]:
+            for suf in ("_lex", "_lexv", "_info", "_idx", "_scan", "_log", "_rev"):
+                G = go_l if suf.startswith("_lex") else go_r
+                a, b = G.get(ref_id + suf), G.get(fid + suf)
+                c = byid[fid + suf]
+                probs = []
+                if a is not None and b is not None:
+                    ncmp += 1
+                    sa, sb = content_sig(suf, a), content_sig(suf, b)
+                    # indexed reads are compared only between layouts that both carry what the index-based reader needs
+                    indexable = lambda X: "chunk_index" in X.get("groups", ["chunk_index"]) and any(it[0] == "chunk" for it in X["items"])
+                    unchunked = lambda X: any(it[0] == "message" for it in X["items"])
+                    if suf in ("_idx", "_log", "_rev") and not (indexable(ref_L) and indexable(LL) and not unchunked(ref_L) and not unchunked(LL)):
+                        pass
+                    elif sa != sb:
+                        probs.append("%s of two legal layouts of the same content differ" % suf[1:])
+                report_case(rep, c, probs, cl.lex_replay if suf.startswith("_lex") else cr.read_replay)
+        for suf in ("_lex", "_lexv", "_info", "_idx", "_scan", "_log", "_rev"):
+            c = byid[ref_id + suf]
+            report_case(rep, c, [], cl.lex_replay if suf.startswith("_lex") else cr.read_replay)
+    cov = summarize(rep, len(lcases) + len(rcases), len(groups),
+                    "each logical content rendered by the reference encoder in 3 legal layouts: different chunk partitions (incl. empty chunks and unchunked messages), schema/channel records at top level / inside the first chunk / repeated in every chunk, all permutations of summary groups sampled, optional sections (statistics, attachment index, message indexes, summary offsets, CRCs) present or not; read by lexer, Info, indexed, scan, LogTime, Reverse+topic; compared with the model; oracle: same content from every layout (indexed reads compared between layouts that keep chunk indexes and chunk every message)",
+                    [cl.lex_replay(c)[:4] for c in lcases[:2]], {"contents": len(groups), "layout_comparisons": ncmp, "disagreements": nd1 + nd2})
+    return cov, []
